@@ -16,6 +16,7 @@ inductive Op
   | w (c : Nat)      -- Write of a chunk
   | vbad             -- Verify against a digest the content does not have
   | vgood            -- Verify against the digest of the accepted bytes
+  | vgoodAlt         -- the same under another digest algorithm (the object rescans its content and switches its digester)
   | close            -- Verify against the digest of the accepted bytes, then (if that passed) Close: what the handler does
   | closeRaw         -- Close without a Verify before it
   | cancel
@@ -30,6 +31,9 @@ structure S where
   fclosed : Bool := false              -- directory store: the temporary file is closed (and gone unless it was renamed)
   written : List Nat := []             -- chunks accepted, in order
   published : List (List Nat) := []    -- contents published by this object (each under the digest of its bytes)
+  alt : Bool := false                  -- the running digester is of the other algorithm (a Verify under it switched)
+  broken : Bool := false               -- directory store: a switch was attempted after the file was closed: the new
+                                       -- digester has seen nothing (the rescan could not seek)
   deriving DecidableEq, Repr
 
 def publish (s : S) : S := if s.published.contains s.written then s else { s with published := s.published ++ [s.written] }
@@ -45,11 +49,40 @@ def closeRaw (dir : Bool) (s : S) : S × Out :=
   else
     if !pinOk s then (s, .err) else (publish { s with ended := true }, .ok)
 
+/-- `Verify(expect)` where `expect` is the digest of the accepted bytes under the first (`wantAlt = false`) or the other
+    algorithm: the pinned digest string must be the expected one; the running digest answers when it is of that algorithm;
+    otherwise the object switches its digester and rescans what it holds - which the directory store cannot do once its file
+    is closed: the switch has happened by then, the new digester has seen nothing (`broken`) -/
+def verifyCore (dir : Bool) (s : S) (wantAlt : Bool) : Bool × Bool × Out :=
+  let pinned := match s.pin with | none => true | some p => !wantAlt && p == s.written
+  if !pinned then (s.alt, s.broken, .err)
+  else if s.alt = wantAlt then (s.alt, s.broken, if !s.broken ∨ s.written = [] then .ok else .err)
+  else if dir ∧ s.fclosed then (wantAlt, true, .err)
+  else (wantAlt, false, .ok)
+
+def verify (dir : Bool) (s : S) (wantAlt : Bool) : S × Out :=
+  let r := verifyCore dir s wantAlt
+  ({ s with alt := r.1, broken := r.2.1 }, r.2.2)
+
+/-- `Verify` against a digest (of the first algorithm) that the content does not have: always refused; an unpinned object
+    whose digester is of the other algorithm switches back on the way -/
+def verifyBadCore (dir : Bool) (s : S) : Bool × Bool :=
+  if s.pin.isSome ∨ s.alt = false then (s.alt, s.broken)
+  else if dir ∧ s.fclosed then (false, true)
+  else (false, false)
+
+def verifyBad (dir : Bool) (s : S) : S :=
+  let r := verifyBadCore dir s
+  { s with alt := r.1, broken := r.2 }
+
 def step (dir : Bool) (s : S) : Op → S × Out
   | .w c => if s.ended ∨ (dir ∧ s.fclosed) then (s, .err) else ({ s with written := s.written ++ [c] }, .ok)
-  | .vbad => (s, .err)
-  | .vgood => (s, if pinOk s then .ok else .err)
-  | .close => if pinOk s then closeRaw dir s else (s, .err)
+  | .vbad => (verifyBad dir s, .err)
+  | .vgood => verify dir s false
+  | .vgoodAlt => verify dir s true
+  | .close => match verify dir s false with
+    | (s1, .ok) => closeRaw dir s1
+    | (s1, .err) => (s1, .err)
   | .closeRaw => closeRaw dir s
   | .cancel => ({ s with ended := true, fclosed := s.fclosed || dir }, .ok)
 
